@@ -222,15 +222,24 @@ def e_sdd(c):
     picked = sums[np.arange(ns), o.argmax(axis=1)]
     mx = sums.max(axis=1)
     check(bool(np.all(picked >= mx - 1e-9 * np.maximum(1.0, np.abs(mx)))), "sdd-not-argmax", f"sums={sums.tolist()[:2]} out={o.tolist()[:2]}")
+    leak = "-"
     if c["sigma"] == 0 and c["shape"] != "random":
-        check(out.data.tolist() == cw.tolist(), "sdd-not-identity-on-noiseless-waveform", f"shape={c['shape']} sps={sps} M={M}")
+        # identity on the noiseless waveform of a codeword - whenever the ON slot does carry the largest integrated amplitude
+        # (very wide Gaussian pulses on a 2-3 sample grid can put more into a neighbouring slot; that is the waveform, not SDD)
+        on = sums[np.arange(ns), sym]
+        others = np.where(cw.reshape(ns, M) == 1, -np.inf, sums)
+        if bool(np.all(on > others.max(axis=1) + 1e-9 * np.abs(on))):
+            check(out.data.tolist() == cw.tolist(), "sdd-not-identity-on-noiseless-waveform", f"shape={c['shape']} sps={sps} M={M}")
+            leak = "on-slot-dominates"
+        else:
+            leak = "pulse-leaks-into-neighbour"
     g.verify()
     g.no_alias([("out", out.data)])
     g.release()
     # wrong length
     if total.size > 1:
         raises(ValueError, PPM.SDD, total[:-1].copy(), M, tag="sdd-partial-symbol-accepted")
-    return {"nontrivial": ns >= 2, "classes": [c["shape"], c["form"], "noisy" if c["sigma"] else "clean", "odd-sps" if sps % 2 else "even-sps"]}
+    return {"nontrivial": ns >= 2, "classes": [c["shape"], c["form"], "noisy" if c["sigma"] else "clean", "odd-sps" if sps % 2 else "even-sps", leak]}
 
 
 s_rej = st.fixed_dictionaries({"M": st.integers(3, 300).filter(lambda m: m & (m - 1)), "n": st.integers(1, 64), "seed": st.integers(0, 2 ** 31),
